@@ -229,8 +229,11 @@ def ownerStep (fs : FS) (t : Th) : Option (FS × Th × String) :=
 def monitorStep (fs : FS) (t : Th) : Option (FS × Th × String) :=
   match t.pc with
   -- FileLockMonitoring::list_cfg: the node is visible iff its state file is in the directory
-  | 0 => if fs.st.linked then some (fs, { t with pc := 1 }, "readdir nodes")
+  | 0 => if fs.st.linked then some (fs, { t with pc := 50 }, "readdir nodes")
          else some (fs, { t with pc := pcDone, listed := some .notListed }, "readdir nodes")
+  -- Directory::contents: scandir, then one stat per entry; an entry that vanished in between is dropped
+  | 50 => if fs.st.linked then some (fs, { t with pc := 1 }, "stat st")
+          else some (fs, { t with pc := pcDone, listed := some .notListed }, "stat st")
   -- get_node_details: static storage open with timeout 0 (a locked = 0600 file counts as unreadable)
   | 1 => some (fs, { t with pc := 2, hasDet := fs.det.linked && fs.det.perm == .final }, "open det")
   | pc => if 2 ≤ pc ∧ pc ≤ 10 then
@@ -260,8 +263,10 @@ def cleanerStep (fs : FS) (t : Th) : Option (FS × Th × String) :=
   let p := t.pid
   let fin (r : CRes) (n : String) : Option (FS × Th × String) := some (fs, { t with pc := pcDone, res := some r }, n)
   match t.pc with
-  | 0 => if fs.st.linked then some (fs, { t with pc := 1 }, "readdir nodes")
+  | 0 => if fs.st.linked then some (fs, { t with pc := 50 }, "readdir nodes")
          else some (fs, { t with pc := pcDone, listed := some .notListed, res := some .notDead }, "readdir nodes")
+  | 50 => if fs.st.linked then some (fs, { t with pc := 1 }, "stat st")
+          else some (fs, { t with pc := pcDone, listed := some .notListed, res := some .notDead }, "stat st")
   | 1 => some (fs, { t with pc := 2, hasDet := fs.det.linked && fs.det.perm == .final }, "open det")
   -- acquire_cleaner_lock → ProcessCleaner::new (process_state.rs:1195-1294)
   | 20 => if fs.ctx.linked then some (fs, { t with pc := 21 }, "open ctx") else fin .alreadyCleanedUp "open ctx"
